@@ -217,6 +217,12 @@ def c06(tier):
         corpus.append("+" + "-" * w + "+\n| \"label %d\"" % i + " " * (w - 12) + " |\n+" + "-" * w + "+  \"q\" --")
     # a tab between two things on one line is one blank cell wherever the line starts
     corpus += ["+--+\t+--+\n|  |\t|  |\n+--+\t+--+", "---\t--->", "a\tb\t\tc", "|\t|\n+-\t-+", "\t/\n/\t"]
+    # the bundled examples as whole files (up to 2 400 rows; moved down they pass every round number of rows)
+    whole = [t.split("# Legend:")[0] for _, t in gen.bundled_files()]
+    whole = [t for t in whole if '"' not in t]
+    if tier == "quick":
+        whole = sorted(whole, key=lambda t: t.count("\n"))[-2:] + r.sample(whole, 1)
+    corpus += whole
     # the shared pool: legend-free texts of plain lines (a quoted string alone on the page is the known finding
     # F-C12-quoted-canvas - the page does not see it, moved or not - so quoted texts stay with the hand-made rows above)
     corpus += pool(r, tier, lambda t: gen.plain_lines(t) and not gen.has_legend(t) and '"' not in t and t.strip(), 500)
@@ -237,6 +243,8 @@ def c06(tier):
                 offs.append((kk, nn2))
         if max(len(x) for x in t.split("\n")) >= 100:
             offs.append((r.randint(386, 400), r.randint(0, 30)))      # the longest rows the quantifier allows
+        if t.count("\n") >= 400:
+            offs = [(r.randint(0, 3), r.randint(120, 200)), (0, 200)]  # the tallest pages the quantifier allows
         # one far offset per base: f32 geometry at large magnitudes
         offs.append(r.choice([(r.randint(250, 400), r.randint(0, 20)), (r.randint(0, 20), r.randint(126, 200)),
                               (r.randint(200, 400), r.randint(100, 200))]))
@@ -300,6 +308,24 @@ def c10(tier):
     for i in range(12):
         corpus += [gen.random_grid(r, r.randint(1, 4), 1, "ab", 1.0) + r.choice(gen.WIDE), r.choice(["()", "(_)", "(_)--", "()-"])]
     corpus = corpus + special + [x for pair in zip(special, reversed(special)) for x in pair]
+    # two arcs of the same table with neighbouring radii (one drawing contains the other), in both orders; and a part
+    # whose right-most character is double-width next to / above a part whose right-most character stands in that very column
+    tabs10 = _json.load(open(os.path.join(common.ROOT, "verifpy", "catalogue_tables.json"), encoding="utf-8"))
+    def art_of(e):
+        cells = {(c[0], c[1]): chr(c[2]) for c in e["span"]}
+        hh, ww = max(y for (_, y) in cells) + 1, max(x for (x, _) in cells) + 1
+        return "\n".join("".join(cells.get((x, y), " ") for x in range(ww)).rstrip() for y in range(hh))
+    for key in ("quarter", "half", "three_quarters"):
+        ents = tabs10[key]
+        for _ in range(10 if tier == "quick" else 120):
+            i_ = r.randrange(len(ents))
+            a_, b_ = art_of(ents[i_]), art_of(r.choice(ents[max(0, i_ - 4):i_ + 5]))
+            if a_.strip() and b_.strip():
+                corpus += [a_, b_]
+    for _ in range(12 if tier == "quick" else 200):
+        w_ = r.randint(1, 8)
+        corpus += [gen.random_grid(r, w_, 1, "ab-+", 1.0) + r.choice(gen.WIDE[:8]),
+                   gen.random_grid(r, w_ + 1, r.randint(1, 2), "ab-+|", 1.0)]
     # the shared pool: tame, legend-free, tag-free, quote-free texts, paired with each other
     pl = pool(r, tier, lambda t: gen.tame(t) and not gen.has_legend(t) and '"' not in t and "{" not in t and "}" not in t and t.strip(), 400)
     corpus += pl[:len(pl) // 2 * 2]
@@ -461,10 +487,21 @@ def c17(tier):
     corpus = [t for t in gen.mixed_corpus(r, n) if t.strip()]
     npool = len(corpus)
     corpus += pool(r, tier, lambda t: "\r" not in t, 500)        # the shared pool, as it is (legends, quotes, tags included)
+    # legends of several KiB (just below / above 4, 8 and 16 KiB: with CRLF or trailing blanks the same legend is longer)
+    for target in (3900, 4050, 8100, 16300):
+        ents, size, j_ = [], 0, 0
+        while size < target:
+            e_ = "r%d = {fill: #%06x; stroke-width: %d}" % (j_, (j_ * 2654435761) % 0xFFFFFF, j_ % 7)
+            ents.append(e_)
+            size += len(e_) + 1
+            j_ += 1
+        corpus.append("+--+\n|{r1}|\n+--+  o--> ab\n# Legend:\n" + "\n".join(ents) + "\n")
     groups = []
     for i, t in enumerate(corpus):
         t = "\n".join(x.rstrip(" \t") for x in t.split("\n"))
-        if i >= npool:
+        if "r1 = {fill" in t:
+            pass
+        elif i >= npool:
             pass
         elif i % 3 == 0:
             t = t + "\n" + r.choice(LEGENDS)
@@ -712,6 +749,12 @@ def c12(tier):
             extra.append("\n" * r.randint(0, 3) + " " * r.randint(0, 5) + r.choice(["_", ".", "'", "/", "\\", "(", ")", "*", "o", "#", "v", "^", "┌", "╯"]))
         else:
             extra.append("")
+    # the right-most column shared by a double-width character (its second cell) in one row and a narrow one in another
+    for i in range(30 if tier == "quick" else 600):
+        w_ = r.randint(0, 9)
+        top_ = gen.random_grid(r, w_, 1, "ab-+", 1.0) + r.choice(gen.WIDE)
+        low_ = gen.random_grid(r, w_ + 1 + (i % 2), 1, "ab-+|", 1.0)
+        extra.append(r.choice([top_ + "\n" + low_, low_ + "\n" + top_, top_ + "\n\n" + low_, low_ + "\n" + top_ + "\n" + low_]))
     # shapes tangent to the top / left border of the page (no margin there): catalogue circles and circle glyphs at
     # the origin, also at scales where a radius is not a whole number
     cat12 = _json.load(open(os.path.join(common.ROOT, "verifpy", "catalogue.json"), encoding="utf-8"))
@@ -1802,6 +1845,13 @@ def nested_boxes(r, depth):
         inner_w = len(tagtxt)
     c_tag = {"in": 1, "left": 0, "tight": 0, "right": inner_w - len(tagtxt)}[place]
     lines = [(" " * c_tag + tagtxt).ljust(inner_w)]
+    if place == "right" and r.random() < 0.7:
+        # a word in the tag's own row, left of it (one blank between them): letters of several scripts and symbols whose
+        # width some tables call ambiguous - each takes one cell here
+        room = c_tag - 1
+        if room >= 2:
+            wd_ = "".join(r.choice(r.choice(["abc", "дфж", "éüñ", "αβγ", "★☆", "①②③", "§±°·", "…“”"])) for _ in range(r.randint(2, room)))
+            lines[0] = (wd_ + " " * (c_tag - len(wd_)) + tagtxt).ljust(inner_w)
     tag_pos = [(0, c_tag, names)]          # (row, col) relative to the content block
     if label:
         lines.append((" " + label).ljust(inner_w)[:inner_w])
@@ -1881,6 +1931,11 @@ def c16(tier):
             t = art + "\n" + header.rstrip("\t ") + r.choice(["", " ", "\t"])        # the header is the very last line, no line ending
         cases.append((t, "C16legend", "legend",
                       {"entries": [[[ord(c) for c in nm], [ord(c) for c in dc], eq] for (nm, dc, eq) in ents]}))
+    # legends of many entries (hundreds of rules, several KiB)
+    for nent in (40, 180, 400):
+        ents = [("k%d" % j_, "fill: #%06x; stroke-width: %d" % ((j_ * 2654435761) % 0xFFFFFF, j_ % 7), 0) for j_ in range(nent)]
+        t = "o--> ab\n# Legend:\n" + "\n".join("%s = {%s}" % (nm, dc) for (nm, dc, _) in ents) + "\n"
+        cases.append((t, "C16legend", "legend", {"entries": [[[ord(c) for c in nm], [ord(c) for c in dc], eq] for (nm, dc, eq) in ents]}))
     cat = _json.load(open(os.path.join(common.ROOT, "verifpy", "catalogue.json"), encoding="utf-8"))
     for i in range(n):
         kind = i % 4
